@@ -244,6 +244,7 @@ func TestC10_KDC(t *testing.T) {
 // ---- raw HTTP to every endpoint of the real binary ----
 
 type c10Http struct {
+	Auth  string   `json:"authentication,omitempty"` // "" = the usual instance; ntlm | kerberos | local: an instance guarding the tunnel endpoint with that mechanism (authentication service attached)
 	Opts  gwOpts   `json:"gateway"`
 	Reqs  []string `json:"raw_requests"`
 }
@@ -254,6 +255,13 @@ var c10Methods = []string{"GET", "POST", "HEAD", "PUT", "RDG_OUT_DATA", "RDG_IN_
 
 func genC10Http(t *rapid.T) c10Http {
 	c := c10Http{Opts: genC01Opts(t)}
+	c.Auth = rapid.SampledFrom([]string{"", "", "ntlm", "ntlm", "kerberos", "local"}).Draw(t, "auth")
+	b64 := func(b []byte) string { return base64.StdEncoding.EncodeToString(b) }
+	type1 := ntlmx.Negotiate()
+	type3, _, _ := ntlmx.Authenticate(ntlmx.AuthSpec{User: "1", Key: ntlmx.NTOWFv2("pw-1", "1", ""), ServerChallenge: []byte{1, 2, 3, 4, 5, 6, 7, 8}, TargetInfo: []byte{0, 0, 0, 0},
+		Timestamp: make([]byte, 8), ClientChallenge: make([]byte, 8), Workstation: "WS"})
+	authPayloads := []string{b64([]byte("garbage")), "!!!", b64([]byte("NTLMSSP\x00")), b64(type1[:16]), b64(type1), b64(append([]byte("NTLMSSP\x00\x02\x00\x00\x00"), make([]byte, 40)...)), b64(type3), b64(type3[:70]),
+		b64([]byte{0xff, 0xfe, 0xfd}), b64([]byte("user:pass")), b64([]byte("\xff\xfe:\xfd")), b64([]byte("nocolon")), b64([]byte(":")), ""}
 	for i, n := 0, rapid.IntRange(1, 6).Draw(t, "n"); i < n; i++ {
 		var sb strings.Builder
 		fmt.Fprintf(&sb, "%s %s %s\r\n", rapid.SampledFrom(c10Methods).Draw(t, "method"), rapid.SampledFrom(c10Paths).Draw(t, "path"), rapid.SampledFrom([]string{"HTTP/1.1", "HTTP/1.0", "HTTP/2.0", "HTTP/1.1 ", "FTP/1.1", ""}).Draw(t, "proto"))
@@ -264,6 +272,10 @@ func genC10Http(t *rapid.T) c10Http {
 				"Rdg-Connection-Id: {}", "Rdg-Connection-Id: " + strings.Repeat("x", 5000), "Connection: upgrade", "Connection: Upgrade", "Upgrade: websocket", "Sec-WebSocket-Key: x", "Sec-WebSocket-Version: 13", "Sec-WebSocket-Version: 8",
 				"Content-Length: 5", "Content-Length: -1", "Content-Length: 99999999999999999999", "Transfer-Encoding: chunked", "Transfer-Encoding: gzip", "Expect: 100-continue", "Content-Type: application/kerberos"}).Draw(t, "hdr")
 			sb.WriteString(h + "\r\n")
+		}
+		if c.Auth != "" && rapid.IntRange(0, 3).Draw(t, "authHdr") > 0 {
+			// something for the authentication backend to choke on
+			fmt.Fprintf(&sb, "Authorization: %s %s\r\n", rapid.SampledFrom([]string{"NTLM", "Negotiate", "Basic"}).Draw(t, "scheme"), rapid.SampledFrom(authPayloads).Draw(t, "authPayload"))
 		}
 		sb.WriteString("\r\n")
 		sb.WriteString(rapid.SampledFrom([]string{"", "hello", "5\r\nhello\r\n0\r\n\r\n", "ffffffffffffffff\r\n", "\x30\x03\xa0\x01\x00"}).Draw(t, "body"))
@@ -284,19 +296,39 @@ func TestC10_HTTP(t *testing.T) {
 		return nt, nil
 	}, func(c c10Http) *Violation {
 		o := resolveHosts(c.Opts)
-		in, tgt, err := binFor(o, W().User)
+		var in *gwproc.Inst
+		var tgt gwc.Target
+		var err error
+		if c.Auth != "" {
+			in, err = c05Instance([]string{c.Auth})
+		} else {
+			in, tgt, err = binFor(o, W().User)
+		}
 		if err != nil {
 			return viol("bin/start", "%v", err)
 		}
 		for _, r := range c.Reqs {
-			gwc.RawHTTP(gwc.Target{Addr: in.Addr}, []byte(r), 120*time.Millisecond)
+			if c.Auth != "" && !strings.Contains(r, "Authorization:") && strings.HasPrefix(r, "RDG_") {
+				continue
+			}
+			gwc.RawHTTP(gwc.Target{Addr: in.Addr, TLS: in.TLS}, []byte(r), 120*time.Millisecond)
 			if v := binHealthQuick(in); v != nil {
 				return v
 			}
 		}
 		if f := in.Faults(); f != "" {
-			dropBin(in)
-			return viol("c10/http-fault/"+panicSite(f), "raw HTTP input caused a runtime fault:\n%s\n last requests: %q", f, c.Reqs)
+			if c.Auth != "" {
+				c05Mu.Lock()
+				delete(c05Pool, c.Auth)
+				c05Mu.Unlock()
+				in.Stop()
+			} else {
+				dropBin(in)
+			}
+			return viol("c10/http-fault/"+panicSite(f), "raw HTTP input caused a runtime fault (authentication %q):\n%s\n last requests: %q", c.Auth, f, c.Reqs)
+		}
+		if c.Auth != "" {
+			return nil // the liveness probe below needs an open tunnel endpoint; binHealthQuick has covered this instance
 		}
 		if v := livenessProbe(tgt); v != nil {
 			return v
